@@ -10,7 +10,8 @@ EXTENDS AttemptCredit
 E(g, m) == [g |-> g, m |-> m]
 StepSchedules == { Linear(1, 4, 2000), Linear(2, 3, 0), Linear(1, 1, 10000), Geometric(50), Geometric(0), Geometric(100),
                    Reciprocal, Author(<<5000>>, "float"), Author(<<10000, 0>>, "int"), Author(<<10000, 3333, 6667, 1>>, "float"),
-                   Author(<<9999, 625>>, "float") }
+                   Author(<<9999, 625>>, "float"),
+                   Author9(<<999990000, 999949000, 999950000, 49999>>, "float") }   \* 0.99999 rounds to 1, 0.999949 does not
 StepAttempts == {-2, 0, 1, 2, 3, 4, 9}
 Grades == {0, 1, 3333, 10000}
 StepBases == {<<E(g, m)>> : g \in Grades, m \in BOOLEAN}
@@ -77,9 +78,12 @@ Refines == pc = "done" =>
              /\ note.on => note.n = Expected.noteN /\ note.p = Expected.noteP
 \* ... and therefore accepted by the property-level judge
 ObsOfState == [raised |-> "none",
-               entries |-> [k \in DOMAIN ents |-> [g8 |-> ents[k].g8, exact |-> TRUE, ok |-> ents[k].ok, kept |-> TRUE]],
+               rawall |-> FALSE,
+               entries |-> [k \in DOMAIN ents |-> [g8 |-> ents[k].g8, exact |-> TRUE, ok |-> ents[k].ok, kept |-> TRUE,
+                                                   lt |-> ents[k].g8 < case.base[k].g * Unit, is0 |-> ents[k].g8 = 0,
+                                                   is1 |-> ents[k].g8 = Unit2]],
                notes |-> IF note.on THEN 1 ELSE 0, noteN |-> note.n, noteP |-> note.p, notePexact |-> TRUE]
-JudgedOK == pc = "done" => Judge(case.base, Value(case.s, Eff(case.n)), case.n, case.flag, ObsOfState) = "ok"
+JudgedOK == pc = "done" => Judge(case.base, [lo |-> Raw9(case.s, Eff(case.n)), hi |-> Raw9(case.s, Eff(case.n))], case.n, case.flag, ObsOfState) = "ok"
 MissingIsConfigError == (pc = "config_error" => case.missing) /\ (case.missing => pc \in {"start", "config_error"})
 \* loop invariant of the flag: it is set iff a positive grade has been processed; processed entries are final,
 \* unprocessed entries are untouched
